@@ -34,21 +34,32 @@ const size_t NS[] = {0, 1, 2, 5, 8};
 
 std::string u64s(uint64_t v) {
   if (v >= 0xFFFFFFFFFFFFFF00ull) return vf::fmt("2^64-%llu", (unsigned long long)(0 - v));
-  if (v == (1ull << 63)) return "2^63";
-  if (v == (1ull << 63) - 1) return "2^63-1";
-  if (v == (1ull << 63) + 1) return "2^63+1";
-  if (v == (1ull << 62)) return "2^62";
-  if (v == (1ull << 32)) return "2^32";
-  if (v == (1ull << 31)) return "2^31";
+  for (int p : {63, 62, 32, 31}) {
+    uint64_t b = 1ull << p;
+    if (v == b) return vf::fmt("2^%d", p);
+    if (v > b && v - b <= 64) return vf::fmt("2^%d+%llu", p, (unsigned long long)(v - b));
+    if (v < b && b - v <= 64) return vf::fmt("2^%d-%llu", p, (unsigned long long)(b - v));
+  }
   return std::to_string(v);
 }
 
 // G(n): boundary values of the size_t range; every pair whose sum wraps to something <= n is in G x G
 std::vector<uint64_t> grid(size_t n) {
-  std::vector<uint64_t> g = {0, 1, n, n + 1, 2 * n, 1ull << 31, 1ull << 32, (1ull << 63) - 1, 1ull << 63, (1ull << 63) + 1};
+  std::vector<uint64_t> g = {0, 1, n, n + 1, 2 * n, (1ull << 31) - 1, 1ull << 31, (1ull << 32) - 1, 1ull << 32, (1ull << 32) + 1, (1ull << 32) + n,
+      (1ull << 63) - 1, 1ull << 63, (1ull << 63) + 1};
   if (n) g.push_back(n - 1);
   for (uint64_t k = 1; k <= n + 1; k++) g.push_back(0 - k);
   for (uint64_t k = 1; k <= 8; k++) g.push_back(0 - k);
+  std::sort(g.begin(), g.end());
+  g.erase(std::unique(g.begin(), g.end()), g.end());
+  return g;
+}
+
+// Gs(n): the compact grid for the many non-fresh readers: both ends, the middle of the range and the wrap
+// pairs (2^64-k, k+j) for k in {1, 2, n, n+1}
+std::vector<uint64_t> grid_small(size_t n) {
+  std::vector<uint64_t> g = {0, 1, 2, n, n + 1, 1ull << 32, 1ull << 63, 0 - (uint64_t)n, 0 - (uint64_t)n - 1, ~0ull - 1, ~0ull};
+  if (n) g.push_back(n - 1);
   std::sort(g.begin(), g.end());
   g.erase(std::unique(g.begin(), g.end()), g.end());
   return g;
@@ -92,25 +103,52 @@ struct Placement {
   }
 };
 
+// A reader under test: how it is made and what it must look like.  The accessor functions below take
+// the reader itself (so that they can be chained into histories on one object) and judge against
+// `content`; base pointer, size and cursor are taken from the reader at entry, and check_view()
+// separately holds the construction to (base, n, w0).
+struct View {
+  std::string how;                   // "a 8-byte reader (guard-page)", "StringReader(ptr, 8, 3).sub(1, 4) [...]"
+  const uint8_t* base = nullptr;     // expected data pointer (not compared when n == 0 or dyn_base)
+  const uint8_t* content = CONTENT;  // model bytes content[0, n)
+  size_t n = 0;                      // expected size()
+  uint64_t w0 = 0;                   // expected where()
+  bool dyn_base = false;             // the reader owns its data: base == owned_data->data()
+  std::function<StringReader()> make;
+};
+
+View fresh_view(const Placement& pl) {
+  View v;
+  v.how = vf::fmt("a %zu-byte reader (%s)", pl.n, pl.name);
+  v.base = pl.base;
+  v.n = pl.n;
+  const uint8_t* P = pl.base;
+  const size_t N = pl.n;
+  v.make = [P, N] { return StringReader(P, N); };
+  return v;
+}
+
 std::string outcome_of(const std::function<void()>& f, std::string* what) {
   return vf::outcome(f, what);
 }
 
 // ---- two-argument positional accessors ---------------------------------------------------------
-enum Fn2 { F_PGETV, F_PREAD_STR, F_PREAD_BUF, F_PREADX_STR, F_PREADX_BUF, F_SUB2, F_SUBX2, F_SUBBITS2, F_SUBXBITS2, F_PGETT2, NFN2 };
-const char* fn2_name[] = {"pgetv", "pread", "pread_buf", "preadx", "preadx_buf", "sub", "subx", "sub_bits", "subx_bits", "pget<T>(off,size)"};
-const bool fn2_clamping[] = {false, true, true, false, false, true, false, true, false, false};
+enum Fn2 { F_PGETV, F_PREAD_STR, F_PREAD_BUF, F_PREADX_STR, F_PREADX_BUF, F_SUB2, F_SUBX2, F_SUBBITS2, F_SUBXBITS2, F_PGETT2, F_PGETT2W, NFN2 };
+const char* fn2_name[] = {"pgetv", "pread", "pread_buf", "preadx", "preadx_buf", "sub", "subx", "sub_bits", "subx_bits", "pget<T>(off,size)", "pget<T>(off,size)"};
+const char* fn2_label[] = {"pgetv", "pread", "pread_buf", "preadx", "preadx_buf", "sub", "subx", "sub_bits", "subx_bits", "pget<uint8_t>", "pget<be_int32_t>"};
+const bool fn2_clamping[] = {false, true, true, false, false, true, false, true, false, false, false};
 
-void call2(const Placement& pl, int fn, uint64_t off, uint64_t sz, CaseResult& res) {
-  const size_t n = pl.n;
-  const uint8_t* base = pl.base;
+void call2(const View& v, StringReader& rd, int fn, uint64_t off, uint64_t sz, CaseResult& res) {
+  const size_t n = rd.size();
+  const uint8_t* base = rd.data;
+  const uint8_t* content = v.content;
+  const uint64_t w_pre = rd.where();
   const bool in = in_range(off, sz, n);
   const bool clamping = fn2_clamping[fn];
   const std::string name = fn2_name[fn];
   const uint64_t lo = clamp_lo(off, n), hi = clamp_hi(off, sz, n);  // clamped slice [lo, hi)
   res.arm(name + (clamping ? ":memory-error" : in ? ":memory-error-in-range" : ":out-of-range-not-rejected"),
-      vf::fmt("%s(offset=%s, size=%s) on a %zu-byte reader (%s)", name.c_str(), u64s(off).c_str(), u64s(sz).c_str(), n, pl.name));
-  StringReader rd(base, n);
+      vf::fmt("%s(offset=%s, size=%s) on %s%s", fn2_label[fn], u64s(off).c_str(), u64s(sz).c_str(), v.how.c_str(), w_pre ? (" with the cursor at " + u64s(w_pre)).c_str() : ""));
   std::string what, verdict;  // verdict empty = fine
   const void* ptr = nullptr;
   std::string got;
@@ -126,6 +164,7 @@ void call2(const Placement& pl, int fn, uint64_t off, uint64_t sz, CaseResult& r
     switch (fn) {
       case F_PGETV: ptr = rd.pgetv(off, sz); break;
       case F_PGETT2: ptr = &rd.pget<uint8_t>(off, sz); break;
+      case F_PGETT2W: ptr = &rd.pget<be_int32_t>(off, sz); break;
       case F_PREAD_STR: got = rd.pread(off, sz); break;
       case F_PREADX_STR: got = rd.preadx(off, sz); break;
       case F_PREAD_BUF: cnt = rd.pread(off, buf.p, sz); break;
@@ -138,8 +177,8 @@ void call2(const Placement& pl, int fn, uint64_t off, uint64_t sz, CaseResult& r
   }, &what);
   const bool bits = fn == F_SUBBITS2 || fn == F_SUBXBITS2;
   const uint64_t want_lo = clamping ? lo : off, want_len = clamping ? hi - lo : sz;
-  if (rd.where() != 0 || rd.size() != n) {
-    res.fail(name + ":wrong-result", vf::fmt("positional call changed the reader: where()=%zu size()=%zu", rd.where(), rd.size()));
+  if (rd.where() != w_pre || rd.size() != n || rd.data != base) {
+    res.fail(name + ":wrong-result", vf::fmt("positional call changed the reader: where() %s -> %s, size() %zu -> %zu", u64s(w_pre).c_str(), u64s(rd.where()).c_str(), n, rd.size()));
     return;
   }
   if (!clamping && !in) {
@@ -152,13 +191,13 @@ void call2(const Placement& pl, int fn, uint64_t off, uint64_t sz, CaseResult& r
     return;
   }
   // returned normally and the model says it may: compare with the model slice
-  if (fn == F_PGETV || fn == F_PGETT2) {
+  if (fn == F_PGETV || fn == F_PGETT2 || fn == F_PGETT2W) {
     if (ptr != base + off) { res.fail(name + ":wrong-result", vf::fmt("returned pointer is data%+lld, expected data+%llu", (long long)((const uint8_t*)ptr - base), (unsigned long long)off)); return; }
   } else if (fn == F_PREAD_STR || fn == F_PREADX_STR) {
-    std::string want((const char*)CONTENT + want_lo, want_len);
+    std::string want((const char*)content + want_lo, want_len);
     if (got != want) { res.fail(name + ":wrong-result", vf::fmt("returned %zu bytes %s, model slice [%llu,%llu) = %s", got.size(), vf::show(got.substr(0, 32)).c_str(), (unsigned long long)want_lo, (unsigned long long)(want_lo + want_len), vf::show(want).c_str())); return; }
   } else if (fn == F_PREAD_BUF || fn == F_PREADX_BUF) {
-    bool same = cnt == want_len && cnt <= bufsz && !memcmp(buf.p, CONTENT + want_lo, want_len);
+    bool same = cnt == want_len && cnt <= bufsz && !memcmp(buf.p, content + want_lo, want_len);
     for (size_t i = want_len; same && i < bufsz; i++) same = buf.p[i] == 0xEE;
     if (!same) { res.fail(name + ":wrong-result", vf::fmt("copied %zu bytes (buffer %s), model: %llu bytes from %llu", cnt, vf::show(buf.p, bufsz).c_str(), (unsigned long long)want_len, (unsigned long long)want_lo)); return; }
   } else {
@@ -172,8 +211,8 @@ void call2(const Placement& pl, int fn, uint64_t off, uint64_t sz, CaseResult& r
 }
 
 // ---- one-argument positional accessors -----------------------------------------------------------
-enum Fn1 { G_CSTR, G_SUB1, G_SUBX1, G_SUBBITS1, G_SUBXBITS1, NFN1 };
-const char* fn1_name[] = {"pget_cstr", "sub(offset)", "subx(offset)", "sub_bits(offset)", "subx_bits(offset)"};
+enum Fn1 { G_CSTR, G_SUB1, G_SUBX1, G_SUBBITS1, G_SUBXBITS1, G_ALL, NFN1 };
+const char* fn1_name[] = {"pget_cstr", "sub(offset)", "subx(offset)", "sub_bits(offset)", "subx_bits(offset)", "all"};
 
 // finding-key group of a typed getter = its bounds-check site
 std::string pget_group(const Kind& k) {
@@ -185,48 +224,63 @@ std::string pget_group(const Kind& k) {
   return "pget<T>";
 }
 
-void call_pget(const Placement& pl, const Kind& k, uint64_t off, CaseResult& res) {
-  const size_t n = pl.n;
+void call_pget(const View& v, StringReader& rd, const Kind& k, uint64_t off, CaseResult& res) {
+  const size_t n = rd.size();
+  const uint64_t w_pre = rd.where();
   const bool in = in_range(off, k.w, n);
   const std::string grp = pget_group(k);
-  res.arm(grp + (in ? ":memory-error-in-range" : ":out-of-range-not-rejected"), vf::fmt("pget_%s(offset=%s) [%d bytes] on a %zu-byte reader (%s)", k.name, u64s(off).c_str(), k.w, n, pl.name));
-  StringReader rd(pl.base, n);
+  res.arm(grp + (in ? ":memory-error-in-range" : ":out-of-range-not-rejected"), vf::fmt("pget_%s(offset=%s) [%d bytes] on %s%s", k.name, u64s(off).c_str(), k.w, v.how.c_str(), w_pre ? (" with the cursor at " + u64s(w_pre)).c_str() : ""));
   uint64_t got = 0;
   std::string what;
   std::string oc = outcome_of([&] { got = k.pget(rd, off); }, &what);
+  if (rd.where() != w_pre || rd.size() != n) { res.fail(grp + ":wrong-result", "positional call changed the reader"); return; }
   if (!in) {
     if (oc == "out_of_range") res.ok(grp + "/rejects-out-of-range");
     else res.fail(grp + ":out-of-range-not-rejected", oc == "ok" ? vf::fmt("offset+%d exceeds the data, yet the call returned 0x%llX", k.w, (unsigned long long)got) : "expected std::out_of_range, got " + oc + " (" + what + ")");
     return;
   }
   if (oc != "ok") { res.fail(grp + ":rejected-in-range", "value lies inside the data; got " + oc + " (" + what + ")"); return; }
-  uint64_t want = k.expect(c01::dec(CONTENT + off, k.w, k.e));
+  uint64_t want = k.expect(c01::dec(v.content + off, k.w, k.e));
   if (got != want) { res.fail(grp + ":wrong-result", vf::fmt("returned 0x%llX, bytes at the offset decode to 0x%llX", (unsigned long long)got, (unsigned long long)want)); return; }
   res.ok(grp + "/in-range-exact");
 }
 
-void call1(const Placement& pl, int fn, uint64_t off, CaseResult& res) {
-  const size_t n = pl.n;
-  const uint8_t* base = pl.base;
+void call1(const View& v, StringReader& rd, int fn, uint64_t off, CaseResult& res) {
+  const size_t n = rd.size();
+  const uint8_t* base = rd.data;
+  const uint8_t* content = v.content;
+  const uint64_t w_pre = rd.where();
   const std::string name = fn1_name[fn];
-  StringReader rd(base, n);
+  const std::string at = w_pre ? " with the cursor at " + u64s(w_pre) : std::string();
   std::string what;
+  if (fn == G_ALL) {
+    // all() is a read of the whole data: exactly the n bytes, whatever the cursor (the offset argument is unused)
+    res.arm(name + ":memory-error", "all() on " + v.how + at);
+    std::string got;
+    std::string oc = outcome_of([&] { got = rd.all(); }, &what);
+    if (oc != "ok") res.fail(name + ":throws", "got " + oc + " (" + what + ")");
+    else if (got != std::string((const char*)content, n)) res.fail(name + ":wrong-result", vf::fmt("returned %zu bytes %s, the data are %zu bytes", got.size(), vf::show(got.substr(0, 32)).c_str(), n));
+    else if (rd.where() != w_pre || rd.size() != n) res.fail(name + ":wrong-result", "all() changed the reader");
+    else res.ok(name + "/exact");
+    return;
+  }
   if (fn == G_CSTR) {
     // a terminated string starts at off iff a NUL exists in [off, n)
     bool term = false;
     size_t j = 0;
     if (off < n)
       for (j = off; j < n; j++)
-        if (CONTENT[j] == 0) { term = true; break; }
-    res.arm(name + (term ? ":memory-error-in-range" : ":out-of-range-not-rejected"), vf::fmt("pget_cstr(offset=%s) on a %zu-byte reader (%s)", u64s(off).c_str(), n, pl.name));
+        if (content[j] == 0) { term = true; break; }
+    res.arm(name + (term ? ":memory-error-in-range" : ":out-of-range-not-rejected"), vf::fmt("pget_cstr(offset=%s) on %s%s", u64s(off).c_str(), v.how.c_str(), at.c_str()));
     std::string got;
     std::string oc = outcome_of([&] { got = rd.pget_cstr(off); }, &what);
+    if (rd.where() != w_pre || rd.size() != n) { res.fail(name + ":wrong-result", "positional call changed the reader"); return; }
     if (!term) {
       if (oc == "out_of_range") res.ok(name + "/rejects-unterminated");
       else res.fail(name + ":out-of-range-not-rejected", "no NUL between the offset and the end of the data; expected std::out_of_range, got " + oc + (oc == "ok" ? " returning " + vf::show(got.substr(0, 32)) : " (" + what + ")"));
       return;
     }
-    std::string want((const char*)CONTENT + off, j - off);
+    std::string want((const char*)content + off, j - off);
     if (oc != "ok") res.fail(name + ":rejected-in-range", "terminated string inside the data; got " + oc + " (" + what + ")");
     else if (got != want) res.fail(name + ":wrong-result", "returned " + vf::show(got) + ", model " + vf::show(want));
     else res.ok(name + "/in-range-exact");
@@ -235,7 +289,7 @@ void call1(const Placement& pl, int fn, uint64_t off, CaseResult& res) {
   const bool clamping = fn == G_SUB1 || fn == G_SUBBITS1;
   const bool bits = fn == G_SUBBITS1 || fn == G_SUBXBITS1;
   const bool in = off <= n;
-  res.arm(name + (clamping ? ":memory-error" : in ? ":memory-error-in-range" : ":out-of-range-not-rejected"), vf::fmt("%s with offset=%s on a %zu-byte reader (%s)", name.c_str(), u64s(off).c_str(), n, pl.name));
+  res.arm(name + (clamping ? ":memory-error" : in ? ":memory-error-in-range" : ":out-of-range-not-rejected"), vf::fmt("%s with offset=%s on %s%s", name.c_str(), u64s(off).c_str(), v.how.c_str(), at.c_str()));
   const uint8_t* sub_base = nullptr;
   uint64_t sub_size = 0, sub_where = 0;
   std::string oc = outcome_of([&] {
@@ -246,6 +300,7 @@ void call1(const Placement& pl, int fn, uint64_t off, CaseResult& res) {
       case G_SUBXBITS1: { BitReader s = rd.subx_bits(off); sub_base = s.data; sub_size = s.length; sub_where = s.offset; break; }
     }
   }, &what);
+  if (rd.where() != w_pre || rd.size() != n) { res.fail(name + ":wrong-result", "positional call changed the reader"); return; }
   if (!clamping && !in) {
     if (oc == "out_of_range") res.ok(name + "/rejects-out-of-range");
     else res.fail(name + ":out-of-range-not-rejected", "offset beyond the data; expected std::out_of_range, got " + oc + " (" + what + ")");
@@ -258,51 +313,164 @@ void call1(const Placement& pl, int fn, uint64_t off, CaseResult& res) {
   res.ok(name + (want_len ? "/in-range-exact" : "/empty"));
 }
 
+// One positional call as a value (used by the pair / context sections).
+struct PCall {
+  int type;  // 0: two-argument form, 1: typed pget, 2: one-argument form
+  int fn;
+  const Kind* k;
+  uint64_t off, sz;
+};
+std::string pcall_name(const PCall& c) {
+  if (c.type == 0) return vf::fmt("%s(%s, %s)", fn2_label[c.fn], u64s(c.off).c_str(), u64s(c.sz).c_str());
+  if (c.type == 1) return vf::fmt("pget_%s(%s)", c.k->name, u64s(c.off).c_str());
+  return c.fn == G_ALL ? std::string("all()") : vf::fmt("%s=%s", fn1_name[c.fn], u64s(c.off).c_str());
+}
+void run_pcall(const View& v, StringReader& rd, const PCall& c, CaseResult& res) {
+  if (c.type == 0) call2(v, rd, c.fn, c.off, c.sz, res);
+  else if (c.type == 1) call_pget(v, rd, *c.k, c.off, res);
+  else call1(v, rd, c.fn, c.off, res);
+}
+// boundary set of positional calls on an n-byte reader: every accessor with slices of different size
+// class (whole, empty, tail, over-long, wrapping, beyond) so that consecutive calls differ in shape
+std::vector<PCall> boundary_calls(size_t n) {
+  std::vector<PCall> b;
+  std::vector<std::pair<uint64_t, uint64_t>> os = {{0, n}, {0, 0}, {n, 0}, {1, ~0ull}, {~0ull, 2}, {0, 1}, {n / 2, n}};
+  if (n) os.push_back({1, n - 1});
+  if (n) os.push_back({n - 1, 2});
+  for (int fn = 0; fn < NFN2; fn++)
+    for (auto& p : os) b.push_back(PCall{0, fn, nullptr, p.first, p.second});
+  for (const char* kn : {"u8", "u16l", "u24b", "u32b", "u48l", "u64b", "s24l", "f32"}) {
+    const Kind* k = c01::kind(kn);
+    std::vector<uint64_t> offs = {0, ~0ull};
+    if (n) offs.push_back(n - 1);
+    if (n > (size_t)k->w) offs.push_back(n - k->w);
+    for (uint64_t o : offs) b.push_back(PCall{1, 0, k, o, 0});
+  }
+  for (uint64_t o : std::vector<uint64_t>{0, 4, n, n ? n - 1 : 1}) b.push_back(PCall{2, G_CSTR, nullptr, o, 0});
+  for (int fn : {G_SUB1, G_SUBX1, G_SUBBITS1, G_SUBXBITS1})
+    for (uint64_t o : std::vector<uint64_t>{0, 1, n, n + 1}) b.push_back(PCall{2, fn, nullptr, o, 0});
+  b.push_back(PCall{2, G_ALL, nullptr, 0, 0});
+  return b;
+}
+
+// Construction check of a view: data pointer, size, cursor, and the observers that go with them.
+void check_view(const View& v, CaseResult& res) {
+  res.arm("construct:memory-error", "constructing " + v.how);
+  std::string what;
+  std::unique_ptr<StringReader> rd;
+  std::string oc = outcome_of([&] { rd.reset(new StringReader(v.make())); }, &what);
+  if (oc != "ok") { res.fail("construct:throws", "construction lies inside the data; got " + oc + " (" + what + ")"); return; }
+  const uint8_t* want_base = v.dyn_base ? (rd->owned_data ? (const uint8_t*)rd->owned_data->data() : nullptr) : v.base;
+  // a cursor handed to a constructor beyond the data is the caller's explicit "go past the end": what
+  // the reader makes of it is not compared (the operations that follow start from the actual state)
+  bool good = rd->length == v.n && (rd->offset == v.w0 || v.w0 > v.n) && (v.n == 0 || rd->data == want_base);
+  if (v.dyn_base && !rd->owned_data) good = false;
+  if (!good) {
+    res.fail("construct:wrong-extent", vf::fmt("reader = (data%+lld, %zu bytes, cursor %s); model (data+0, %zu bytes, cursor %s)", (long long)(want_base && rd->data ? rd->data - want_base : 0), rd->length, u64s(rd->offset).c_str(), v.n, u64s(v.w0).c_str()));
+    return;
+  }
+  if (rd->size() != v.n || rd->where() != rd->offset || (rd->offset <= v.n && (rd->remaining() != v.n - rd->offset || rd->eof() != (rd->offset == v.n)))) {
+    res.fail("construct:wrong-extent", vf::fmt("observers disagree with the state: size()=%zu where()=%s remaining()=%s eof()=%d", rd->size(), u64s(rd->where()).c_str(), u64s(rd->remaining()).c_str(), (int)rd->eof()));
+    return;
+  }
+  res.ok("construct/ok");
+}
+
 }  // namespace
 
 // One case = one (accessor, n, placement, offset) row with every size in G(n) (two-argument forms)
 // or one (accessor, n, placement) row with every offset in G(n) (one-argument forms).
+// `compact`: the grid Gs(n) instead of G(n), and one case per accessor with every (offset, size) pair.
+void grid_rows(vf::Run& r, const View& v, bool all_kinds, bool compact = false) {
+  auto G = compact ? grid_small(v.n) : grid(v.n);
+  const char* gname = compact ? "Gs" : "G";
+  for (int fn = 0; fn < NFN2; fn++) {
+    r.note(fn2_label[fn]);
+    if (compact) {
+      if (!r.take()) continue;
+      const size_t cnt = G.size() * G.size();
+      if (r.wants_desc()) r.desc(vf::fmt("%s(every offset, every size in Gs(%zu)) on %s", fn2_label[fn], v.n, v.how.c_str()));
+      r.evals += cnt - 1;
+      r.nontrivial += cnt;
+      auto* res = c02::run_batch(r, cnt, [&](size_t i, CaseResult& c) { StringReader rd = v.make(); call2(v, rd, fn, G[i / G.size()], G[i % G.size()], c); });
+      c02::fold(r, res, cnt);
+      continue;
+    }
+    for (uint64_t off : G) {
+      if (!r.take()) continue;
+      if (r.wants_desc()) r.desc(vf::fmt("%s(offset=%s, every size in G(%zu)) on %s", fn2_label[fn], u64s(off).c_str(), v.n, v.how.c_str()));
+      r.evals += G.size() - 1;
+      r.nontrivial += G.size();
+      auto* res = c02::run_batch(r, G.size(), [&](size_t i, CaseResult& c) { StringReader rd = v.make(); call2(v, rd, fn, off, G[i], c); });
+      c02::fold(r, res, G.size());
+    }
+  }
+  std::vector<const Kind*> ks;
+  for (auto& k : c01::kinds())
+    if (all_kinds || k.w == 3 || k.w == 6 || !strcmp(k.name, "u8") || !strcmp(k.name, "s16b") || !strcmp(k.name, "u32r") || !strcmp(k.name, "f64l")) ks.push_back(&k);
+  if (compact) {
+    r.note("pget_*");
+    if (r.take()) {
+      const size_t cnt = ks.size() * G.size();
+      if (r.wants_desc()) r.desc(vf::fmt("%zu typed pget_* x every offset in Gs(%zu) on %s", ks.size(), v.n, v.how.c_str()));
+      r.evals += cnt - 1;
+      r.nontrivial += cnt;
+      auto* res = c02::run_batch(r, cnt, [&](size_t i, CaseResult& c) { StringReader rd = v.make(); call_pget(v, rd, *ks[i / G.size()], G[i % G.size()], c); });
+      c02::fold(r, res, cnt);
+    }
+  } else {
+    for (const Kind* k : ks) {
+      r.note(std::string("pget_") + k->name);
+      if (!r.take()) continue;
+      if (r.wants_desc()) r.desc(vf::fmt("pget_%s(every offset in G(%zu)) on %s", k->name, v.n, v.how.c_str()));
+      r.evals += G.size() - 1;
+      r.nontrivial += G.size();
+      auto* res = c02::run_batch(r, G.size(), [&](size_t i, CaseResult& c) { StringReader rd = v.make(); call_pget(v, rd, *k, G[i], c); });
+      c02::fold(r, res, G.size());
+    }
+  }
+  if (compact) {
+    r.note("one-argument forms");
+    if (r.take()) {
+      const size_t cnt = (NFN1 - 1) * G.size() + 1;
+      if (r.wants_desc()) r.desc(vf::fmt("pget_cstr, sub/subx/sub_bits/subx_bits(offset) x every offset in Gs(%zu), all() on %s", v.n, v.how.c_str()));
+      r.evals += cnt - 1;
+      r.nontrivial += cnt;
+      auto* res = c02::run_batch(r, cnt, [&](size_t i, CaseResult& c) {
+        StringReader rd = v.make();
+        if (i + 1 == cnt) call1(v, rd, G_ALL, 0, c);
+        else call1(v, rd, (int)(i / G.size()), G[i % G.size()], c);
+      });
+      c02::fold(r, res, cnt);
+    }
+    return;
+  }
+  for (int fn = 0; fn < NFN1; fn++) {
+    r.note(fn1_name[fn]);
+    if (!r.take()) continue;
+    if (r.wants_desc()) r.desc(vf::fmt("%s with every offset in %s(%zu) on %s", fn1_name[fn], gname, v.n, v.how.c_str()));
+    const size_t cnt = fn == G_ALL ? 1 : G.size();
+    r.evals += cnt - 1;
+    r.nontrivial += cnt;
+    auto* res = c02::run_batch(r, cnt, [&](size_t i, CaseResult& c) { StringReader rd = v.make(); call1(v, rd, fn, G[i], c); });
+    c02::fold(r, res, cnt);
+  }
+}
+
 VF_SECTION(grid, 16, 16, 90) {
   for (size_t n : NS) {
-    auto G = grid(n);
     for (int which = 0; which < 2; which++) {
       Placement pl(which, n);
-      for (int fn = 0; fn < NFN2; fn++) {
-        r.note(fn2_name[fn]);
-        for (uint64_t off : G) {
-          if (!r.take()) continue;
-          if (r.wants_desc()) r.desc(vf::fmt("%s(offset=%s, every size in G(%zu)) on a %zu-byte reader (%s)", fn2_name[fn], u64s(off).c_str(), n, n, pl.name));
-          r.evals += G.size() - 1;
-          r.nontrivial += G.size();
-          auto* res = c02::run_batch(r, G.size(), [&](size_t i, CaseResult& c) { call2(pl, fn, off, G[i], c); });
-          c02::fold(r, res, G.size());
-        }
-      }
-      for (auto& k : c01::kinds()) {
-        r.note(std::string("pget_") + k.name);
-        if (!r.take()) continue;
-        if (r.wants_desc()) r.desc(vf::fmt("pget_%s(every offset in G(%zu)) on a %zu-byte reader (%s)", k.name, n, n, pl.name));
-        r.evals += G.size() - 1;
-        r.nontrivial += G.size();
-        auto* res = c02::run_batch(r, G.size(), [&](size_t i, CaseResult& c) { call_pget(pl, k, G[i], c); });
-        c02::fold(r, res, G.size());
-      }
-      for (int fn = 0; fn < NFN1; fn++) {
-        r.note(fn1_name[fn]);
-        if (!r.take()) continue;
-        if (r.wants_desc()) r.desc(vf::fmt("%s with every offset in G(%zu) on a %zu-byte reader (%s)", fn1_name[fn], n, n, pl.name));
-        r.evals += G.size() - 1;
-        r.nontrivial += G.size();
-        auto* res = c02::run_batch(r, G.size(), [&](size_t i, CaseResult& c) { call1(pl, fn, G[i], c); });
-        c02::fold(r, res, G.size());
-      }
+      View v = fresh_view(pl);
+      grid_rows(r, v, true);
     }
   }
   r.counters["forks"] += c02::stats().forks;
-  r.bound = "n in {0,1,2,5,8} x {guard-page, exact-heap} x {pgetv, pget<T>(off,size), pread x2, preadx x2, sub, subx, sub_bits, subx_bits} x G(n) x G(n); 42 typed pget_* x G(n); pget_cstr, sub/subx/sub_bits/subx_bits(offset) x G(n); G(n) = {0,1,n-1,n,n+1,2n,2^31,2^32,2^63-1,2^63,2^63+1,2^64-n-1..2^64-1,2^64-8..2^64-1}";
+  r.bound = "n in {0,1,2,5,8} x {guard-page, exact-heap} x {pgetv, pget<uint8_t>(off,size), pget<be_int32_t>(off,size), pread x2, preadx x2, sub, subx, sub_bits, subx_bits} x G(n) x G(n); 42 typed pget_* x G(n); pget_cstr, sub/subx/sub_bits/subx_bits(offset) x G(n); all(); G(n) = {0,1,n-1,n,n+1,2n,2^31-1,2^31,2^32-1,2^32,2^32+1,2^32+n,2^63-1,2^63,2^63+1,2^64-n-1..2^64-1,2^64-8..2^64-1}";
 }
 
 #include "C02_cursor.hh"
+#include "C02_derived.hh"
 #include "C02_writers.hh"
 
 VF_MAIN()
